@@ -1,0 +1,70 @@
+#!/usr/bin/python
+
+# vim: set expandtab ts=4 sw=4:
+
+"""
+Verification trace hooks.
+
+Inactive unless the environment variable EMD_VERIF_TRACE names a directory, in
+which case instrumented functions append one JSON line per call to
+``<directory>/<pid>.jsonl`` (one file per process so that records written by
+worker processes of a multiprocessing pool are kept). Arrays are stored next
+to it as ``<pid>-<n>.npy``. Nothing here changes any computation.
+
+"""
+
+import os
+import sys
+import json
+
+import numpy as np
+
+GUARD = 'EMD_VERIF_TRACE'
+_counter = [0]
+
+
+def active():
+    """Return True if tracing has been requested for this process."""
+    return bool(os.environ.get(GUARD))
+
+
+def callers(depth=2, n=3):
+    """Names of the functions up the stack from the instrumented function."""
+    out = []
+    try:
+        f = sys._getframe(depth)
+        while f is not None and len(out) < n:
+            out.append(f.f_code.co_name)
+            f = f.f_back
+    except ValueError:
+        pass
+    return out
+
+
+def _enc(val, tdir):
+    if isinstance(val, np.ndarray):
+        _counter[0] += 1
+        name = '{0}-{1}.npy'.format(os.getpid(), _counter[0])
+        np.save(os.path.join(tdir, name), val)
+        return {'__npy__': name}
+    if isinstance(val, dict):
+        return {str(k): _enc(v, tdir) for k, v in val.items()}
+    if isinstance(val, (list, tuple)):
+        return [_enc(v, tdir) for v in val]
+    if isinstance(val, (np.floating, np.integer, np.bool_)):
+        return val.item()
+    if val is None or isinstance(val, (str, int, float, bool)):
+        return val
+    return repr(val)
+
+
+def emit(kind, **fields):
+    """Append one trace record for this process."""
+    tdir = os.environ.get(GUARD)
+    if not tdir:
+        return
+    rec = {'kind': kind, 'pid': os.getpid()}
+    for key, val in fields.items():
+        rec[key] = _enc(val, tdir)
+    with open(os.path.join(tdir, '{0}.jsonl'.format(os.getpid())), 'a') as f:
+        f.write(json.dumps(rec) + '\n')
